@@ -268,7 +268,7 @@ func vpathDepth(v ssa.Value, depth int) string {
 		for _, e := range x.Edges {
 			q := vpathDepth(e, depth+1)
 			if q == "" || (p != "" && p != q) {
-				return ""
+				return "phi(" + x.Name() + ")"
 			}
 			p = q
 		}
